@@ -9,7 +9,7 @@ SPEC = os.path.join(vlib.SPEC, "text", "MCJsString.tla")
 
 
 def run(tier, replay=None):
-    ck = vlib.Check("C11", tier, "model_checking")
+    ck = vlib.Check("C11", tier, "model_checking", replay)
     bindir = vlib.build_harness(["hstr"])
     cfgs = ["MCJsString_quick.cfg"] if tier == "quick" else ["MCJsString_thorough.cfg", "MCJsString_long.cfg"]
     recs = []
